@@ -174,6 +174,61 @@ func (c *Ctx) defineEq(hint string, s Sort, body string) string {
 	return n
 }
 
+// arrayKeySort returns the index sort of "(Array K V)".
+func arrayKeySort(s Sort) (string, bool) {
+	if !strings.HasPrefix(s, "(Array ") {
+		return "", false
+	}
+	rest := s[len("(Array "):]
+	if strings.HasPrefix(rest, "(") {
+		d := 0
+		for i, r := range rest {
+			if r == '(' {
+				d++
+			} else if r == ')' {
+				d--
+				if d == 0 {
+					return rest[:i+1], true
+				}
+			}
+		}
+		return "", false
+	}
+	i := strings.IndexByte(rest, ' ')
+	if i < 0 {
+		return "", false
+	}
+	return rest[:i], true
+}
+
+// splitIte splits "(ite c a b)" into its three top-level arguments.
+func splitIte(body string) (c, a, b string, ok bool) {
+	if !strings.HasPrefix(body, "(ite ") || !strings.HasSuffix(body, ")") {
+		return
+	}
+	inner := body[5 : len(body)-1]
+	var parts []string
+	d, start := 0, 0
+	for i, r := range inner {
+		switch r {
+		case '(':
+			d++
+		case ')':
+			d--
+		case ' ':
+			if d == 0 {
+				parts = append(parts, inner[start:i])
+				start = i + 1
+			}
+		}
+	}
+	parts = append(parts, inner[start:])
+	if len(parts) != 3 {
+		return
+	}
+	return parts[0], parts[1], parts[2], true
+}
+
 // defineAlways names even small bodies (for pcs).
 func (c *Ctx) defineAlways(hint string, s Sort, body string) string {
 	if strings.HasPrefix(s, "(Array") {
@@ -608,4 +663,92 @@ func sortedKeys[V any](m map[string]V) []string {
 	}
 	sort.Strings(ks)
 	return ks
+}
+
+var iteCondRe = regexp.MustCompile(`\(ite (pc![0-9]+) `)
+
+// solveAdaptive: first the whole query with a short timeout; if undecided, case-split on the conditions of the
+// state merges (latest first) -- with a condition fixed the solver simplifies the merged arrays away --; if leaves
+// stay undecided, fall back to the full race on the whole query.
+func solveAdaptive(file string, smt string, tmo int, mode string) SolveResult {
+	short := 2
+	if tmo < short {
+		short = tmo
+	}
+	first := solverCmds[0]
+	st, out, el := runOne(first.name, first.argv(file, short), short)
+	res := SolveResult{Status: st, Solver: first.name, TimeS: el, Tried: []string{fmt.Sprintf("%s:%s:%.2fs", first.name, st, el)}}
+	if (st == "unsat" || st == "sat") && mode == "first" {
+		return res
+	}
+	if st == "error" {
+		res.Output = firstLines(out, 3)
+	}
+	// collect merge conditions
+	var conds []string
+	seen := map[string]bool{}
+	for _, m := range iteCondRe.FindAllStringSubmatch(smt, -1) {
+		if !seen[m[1]] {
+			seen[m[1]] = true
+			conds = append(conds, m[1])
+		}
+	}
+	if len(conds) > 0 && st != "error" && (st != "unsat" && st != "sat") {
+		base := strings.Replace(smt, "(check-sat)\n", "", 1)
+		leaves, budget := 0, 48
+		var total float64
+		var rec func(assumps []string, k int) string
+		rec = func(assumps []string, k int) string {
+			// k: index into conds (from the end)
+			if leaves >= budget {
+				return "unknown"
+			}
+			leaves++
+			q := base + strings.Join(assumps, "") + "(check-sat)\n"
+			f := fmt.Sprintf("%s.split%d.smt2", file, leaves)
+			os.WriteFile(f, []byte(q), 0o644)
+			st, _, el := runOne(first.name, first.argv(f, short), short)
+			os.Remove(f)
+			total += el
+			if st == "unsat" || st == "sat" {
+				return st
+			}
+			if k < 0 || len(assumps) >= 6 {
+				return "unknown"
+			}
+			c := conds[k]
+			a := rec(append(append([]string(nil), assumps...), "(assert "+c+")\n"), k-1)
+			if a == "sat" {
+				return "sat"
+			}
+			b := rec(append(append([]string(nil), assumps...), "(assert (not "+c+"))\n"), k-1)
+			if b == "sat" {
+				return "sat"
+			}
+			if a == "unsat" && b == "unsat" {
+				return "unsat"
+			}
+			return "unknown"
+		}
+		k := len(conds) - 1
+		a := rec([]string{"(assert " + conds[k] + ")\n"}, k-1)
+		b := "unknown"
+		if a != "sat" {
+			b = rec([]string{"(assert (not " + conds[k] + "))\n"}, k-1)
+		}
+		res.TimeS += total
+		res.Tried = append(res.Tried, fmt.Sprintf("split:%d-leaves:%.2fs", leaves, total))
+		switch {
+		case a == "sat" || b == "sat":
+			res.Status, res.Solver = "sat", first.name+"+split"
+			return res
+		case a == "unsat" && b == "unsat":
+			res.Status, res.Solver = "unsat", first.name+"+split"
+			return res
+		}
+	}
+	r2 := solve(file, tmo, mode)
+	r2.TimeS += res.TimeS
+	r2.Tried = append(res.Tried, r2.Tried...)
+	return r2
 }
